@@ -297,16 +297,31 @@ def r12_3(chk, uc):
     norm = f"numpy.linalg.norm({vec if same else 'self.direct'}, axis=1)"
     chk.ob("R12.3", UC, q, "lengths are the row norms of the matrix, in order a, b, c",
            items is not None and [x.subs(same).key() for x in items] == [f"{norm}[{k}]" for k in range(3)], found=str(L))
-    units = {k[1]: v for k, v in ev.defs.items()}
-    for k, nm in enumerate(("u_a", "u_b", "u_c")):
-        v = units.get(nm)
-        want = P.atom(("sub", vec, (P.const(k), P.atom(("slice",) + (P.atom(("const", None)),) * 3)))) / P.atom(
-            ("sub", P.atom(("call", P.name("numpy.linalg.norm"), (P.atom(("attr", P.name("self"), "direct")),), (("axis", P.const(1)),))), (P.const(k),)))
-        chk.ob("R12.3", UC, q, f"{nm} is row {k} divided by its own length", v is not None and v.subs(same) == want.subs(same), fingerprint=f"unit:{nm}",
-               expected=str(want), found=str(v))
+    # unit vector of axis k: row k of the matrix divided by its own length (whatever the locals are called)
+    none3 = (P.atom(("const", None)),) * 3
+
+    def unit(k, short=False):
+        row = P.atom(("sub", vec, (P.const(k),) if short else (P.const(k), P.atom(("slice",) + none3))))
+        nrm = P.atom(("sub", P.atom(("call", P.name("numpy.linalg.norm"), (vec,), (("axis", P.const(1)),))), (P.const(k),)))
+        return row / nrm
+    units = {}
+    for k in range(3):
+        for short in (False, True):
+            units[unit(k, short).key()] = k
+    defs = {k[1]: v.subs({("attr", P.name("self"), "direct"): vec}) if same else v for k, v in ev.defs.items()}
+
+    def axis_of(t):
+        """which axis' unit vector a term is (through an opaque local), or None"""
+        ta = t.as_atom()
+        if ta and ta[0] == "local" and ta[1] in defs:
+            t = defs[ta[1]]
+        if same:
+            t = t.subs(same)
+        return units.get(t.key())
     A = st.get("self.angles")
     items = seq_items(A) if A is not None else None
-    want_pairs = [("$u_b", "$u_c"), ("$u_c", "$u_a"), ("$u_a", "$u_b")]
+    want_pairs = [(1, 2), (2, 0), (0, 1)]
+    axn = "abc"
     for k, nm in enumerate(("alpha", "beta", "gamma")):
         ok = False
         found = None
@@ -315,9 +330,16 @@ def r12_3(chk, uc):
             found = str(items[k])
             if a and call_name(a) == "arccos":
                 vd = find_atoms(a[2][0], lambda t: t[0] == "call" and call_name(t) in ("numpy.vdot", "numpy.dot", "numpy.inner"))
+                vd = vd or [("call", None, m[1]) for m in find_atoms(a[2][0], lambda t: t[0] == "matmul" and len(t[1]) == 2)]
                 if vd:
-                    ok = {vd[0][2][0].key(), vd[0][2][1].key()} == set(want_pairs[k])
-        chk.ob("R12.3", UC, q, f"{nm} is the angle between {want_pairs[k][0][1:]} and {want_pairs[k][1][1:]}", ok,
+                    got = {axis_of(vd[0][2][0]), axis_of(vd[0][2][1])}
+                    ok = got == set(want_pairs[k])
+                    if None in got:
+                        # which rows, and is each divided by its own length?
+                        for j, x in enumerate(vd[0][2][:2]):
+                            chk.ob("R12.3", UC, q, f"operand {j} of the {nm} dot product is a row of the matrix divided by its own length", False,
+                                   fingerprint=f"unit:{nm}:{j}", expected=str(unit(want_pairs[k][j])), found=str(x)[:160]) if axis_of(x) is None else None
+        chk.ob("R12.3", UC, q, f"{nm} is the angle between u_{axn[want_pairs[k][0]]} and u_{axn[want_pairs[k][1]]} (each row divided by its own length)", ok,
                fingerprint=f"angle:{nm}", found=found)
     # accessors (G1)
     acc = {"a": ("lengths", 0, "item"), "b": ("lengths", 1, "item"), "c": ("lengths", 2, "item"),
@@ -369,11 +391,21 @@ def r12_4(chk, repo, uc):
         chk.ob("R12.4", UC, f"UnitCell.{ctor}", "the constructor does not modify the lengths / angles / parameters it is given", not muts,
                fingerprint=f"args-unchanged:{ctor}", expected="np.radians(angles) (a new array)", found=[f"{k}: {v[0]}" for k, v in muts.items()][:2])
     calls = [e for e in ev.events if e.kind == "call" and call_name(e.value.as_atom() or ()) == ".set_lengths_and_angles"]
-    chk.need(len(calls) == 2, f"{q}: expected two calls of set_lengths_and_angles")
+    chk.need(len(calls) in (1, 2), f"{q}: expected one or two calls of set_lengths_and_angles")
+    cases = []
     for e in calls:
-        is_rad_branch = any(pol == (c.as_atom()[0] == "eq") for c, pol in e.guards
-                            if c.as_atom() and c.as_atom()[0] in ("eq", "ne") and "'radians'" in c.key())
         arg = e.extra["args"][1]
+        aa = arg.as_atom()
+        ca = aa[1].as_atom() if aa and aa[0] == "ite" else None
+        if ca and ca[0] in ("eq", "ne") and "'radians'" in aa[1].key():
+            # one call, the conversion chosen beforehand: angles if unit == "radians" else np.radians(angles)
+            cases.append((e, ca[0] == "eq", aa[2]))
+            cases.append((e, ca[0] != "eq", aa[3]))
+        else:
+            cases.append((e, any(pol == (c.as_atom()[0] == "eq") for c, pol in e.guards
+                                 if c.as_atom() and c.as_atom()[0] in ("eq", "ne") and "'radians'" in c.key()), arg))
+    chk.need(len(cases) == 2 and {c[1] for c in cases} == {True, False}, f"{q}: expected a radians case and a conversion case")
+    for e, is_rad_branch, arg in cases:
         if is_rad_branch:
             ok = arg.key() == ang.key()
             what = "unit == 'radians': angles are passed on unchanged"
